@@ -415,4 +415,68 @@ theorem equiv_tail (c : Content) (L : Lang) (t : Rat) (xs : List Rat)
       cases (templateOf L).sizedRet <;> simp [Except.bind]
 
 
+/-! ### shape of the generated program, every model -/
+
+/-- whatever the model: language, extra inputs, returned names and the `()` flag of the emitted program -/
+theorem genModel_shape (bad : List Name) (c : Content) (L : Lang) (free : List Name) (p : SLP)
+    (h : genModel bad c L free = .ok p) :
+    p.lang = L ∧ p.extra = free ∧ p.ret = retNames p.inputs (diffEqs c.rxns)
+      ∧ p.retUnit = (diffEqs c.rxns).isEmpty
+      ∧ ∃ cache, createCache c = .ok cache ∧ p.inputs = omKeys cache.init := by
+  unfold genModel at h
+  simp only [bind, Except.bind] at h
+  cases hcc : createCache c with
+  | error e => simp [hcc] at h
+  | ok cache =>
+    simp only [hcc] at h
+    split at h
+    · simp [throw, throwThe, MonadExceptOf.throw] at h
+    · cases hp : popAll (emittedPars c cache) free with
+      | error e => simp [hp, pure, Except.pure] at h
+      | ok ps =>
+        simp only [hp, pure, Except.pure] at h
+        cases hb : emitBody bad c cache.order with
+        | error e => simp [hb] at h
+        | ok body =>
+          simp only [hb, Except.ok.injEq] at h
+          subst h
+          exact ⟨rfl, rfl, rfl, rfl, cache, rfl, rfl⟩
+
+/-- every returned name is the target of an assignment (Python / TypeScript / Rust), whatever the model -/
+theorem genModel_ret_assigned (bad : List Name) (c : Content) (L : Lang) (free : List Name) (p : SLP)
+    (hL : L ≠ .jl) (h : genModel bad c L free = .ok p) :
+    ∀ n ∈ p.ret, n ∈ p.assigns.map (·.1) := by
+  unfold genModel at h
+  simp only [bind, Except.bind] at h
+  cases hcc : createCache c with
+  | error e => simp [hcc] at h
+  | ok cache =>
+    simp only [hcc] at h
+    split at h
+    · simp [throw, throwThe, MonadExceptOf.throw] at h
+    · cases hp : popAll (emittedPars c cache) free with
+      | error e => simp [hp] at h
+      | ok ps =>
+        simp only [hp, pure, Except.pure] at h
+        cases hb : emitBody bad c cache.order with
+        | error e => simp [hb] at h
+        | ok body =>
+          simp only [hb, Except.ok.injEq] at h
+          subst h
+          intro n hn
+          simp only [retNames] at hn
+          split at hn
+          · cases hn
+          · rename_i hne
+            obtain ⟨v, hv, rfl⟩ := List.mem_map.mp hn
+            simp only [List.map_append, List.map_map, Function.comp_def, target_id hL, List.mem_append, List.mem_map]
+            by_cases hd : (omKeys (diffEqs c.rxns)).contains v = true
+            · have : v ∈ omKeys (diffEqs c.rxns) := by simpa using hd
+              obtain ⟨vs, hvs, rfl⟩ := List.mem_map.mp this
+              exact Or.inl (Or.inr ⟨vs, hvs, rfl⟩)
+            · refine Or.inr ⟨v, ?_, rfl⟩
+              have hne' : (diffEqs c.rxns).isEmpty = false := by simpa using hne
+              simp only [zeroVars, hne', Bool.false_eq_true, if_false, List.mem_filter]
+              exact ⟨hv, by simpa using hd⟩
+
 end Mxl.C07
